@@ -226,10 +226,12 @@ impl<'a> MslV<'a> {
             if args.len() != 2 {
                 return None;
             }
-            self.op_type(MBin::Mod, &tys[0], &tys[1])?;
             let p = self.eval(&args[0], fr, mem, cx, depth)?;
             let q = self.eval(&args[1], fr, mem, cx, depth)?;
-            return self.binary(MBin::Mod, &tys[0], &tys[1], p, q);
+            self.in_fmod.set(true);
+            let r = self.binary(MBin::Mod, &tys[0], &tys[1], p, q);
+            self.in_fmod.set(false);
+            return r;
         }
         // the static type also decides whether the function is modelled at all
         self.lib_type(lib, &tys)?;
